@@ -24,7 +24,7 @@ META = {
 
 
 def configs(tier, seed):
-    out = C01.configs(tier, seed)
+    out = [c for c in C01.configs(tier, seed) if 'dim' in c]
     if tier == 'quick':
         # every third 1-D configuration (rotated by seed), all 2-D ones
         out = [c for i, c in enumerate(out) if c['dim'] == 2 or (i + seed) % 3 == 0 or c['N'] <= 5]
